@@ -361,6 +361,19 @@ pub fn prop_with(case: &Case, known_url: bool, known_thr: bool) -> Outcome {
         Incoming::WrongKeys => vec![0, 1],
         Incoming::SameKeyTwice => mr.keys.iter().take(1).copied().collect(),
     };
+    // the holder's own edit: nothing, a new target below the role's prefix, or one outside of it
+    let holder_add: Option<(String, Vec<u8>)> = if matches!(kind, Incoming::Genuine | Incoming::Older) {
+        match (*bump >> 8) % 4 {
+            0 => None,
+            2 => Some(("outside-of-every-prefix/cross.txt".to_string(), b"added by the role holder, outside".to_vec())),
+            _ => Some((format!("{}/cross-added.txt", mr.prefix), b"added by the role holder".to_vec())),
+        }
+    } else {
+        None
+    };
+    if let Some((n, _)) = &holder_add {
+        o.label(if n.starts_with("outside") { "cross:holder-adds-outside-prefix" } else { "cross:holder-adds-target" });
+    }
     let repo2 = match load(&b, false) {
         Ok(r) => r,
         Err(e) => {
@@ -371,6 +384,12 @@ pub fn prop_with(case: &Case, known_url: bool, known_thr: bool) -> Outcome {
     let holder: Result<(), String> = crate::rt::block_on(async {
         let mut te = TargetsEditor::from_repo(repo2, &role).map_err(|e| format!("TargetsEditor::from_repo: {e}"))?;
         te.version(NonZeroU64::new(new_version).unwrap()).expires(edit::expiry(77));
+        if let Some((name, data)) = &holder_add {
+            let f = b.input_dir.join("cross-holder-input");
+            std::fs::write(&f, data).unwrap();
+            let t = tough::schema::Target::from_path(&f).await.map_err(|e| format!("Target::from_path: {e}"))?;
+            te.add_target(name.as_str(), t).map_err(|e| format!("holder add_target: {e}"))?;
+        }
         let signed = if matches!(kind, Incoming::Genuine | Incoming::Older) {
             te.sign(&edit::key_sources(&signer_keys)).await.map_err(|e| format!("holder sign: {e}"))?
         } else {
@@ -423,9 +442,26 @@ pub fn prop_with(case: &Case, known_url: bool, known_thr: bool) -> Outcome {
             return o;
         }
     };
+    let meta2 = b.work.path().join("metadata-after-cross");
+    // Ok(Some(..)): incorporated, owner signed and wrote; Ok(None): incorporated, the owner's sign() or write() refused
+    let mut after: Option<Result<(), String>> = None;
     let res: Result<(), String> = crate::rt::block_on(async {
         let mut ed = RepositoryEditor::from_repo(&b.root_path, repo3).await.map_err(|e| format!("from_repo: {e}"))?;
         ed.update_delegated_targets(&role, &url).await.map_err(|e| format!("update_delegated_targets: {e}"))?;
+        // the owner publishes the result
+        let Some(rs) = m.root.as_ref() else { return Ok(()) };
+        ed.snapshot_version(NonZeroU64::new(m.snapshot.0 + 1).unwrap())
+            .snapshot_expires(edit::expiry(80))
+            .timestamp_version(NonZeroU64::new(m.timestamp.0 + 1).unwrap())
+            .timestamp_expires(edit::expiry(81));
+        let mut ks: Vec<usize> = Vec::new();
+        for rk in [&rs.timestamp, &rs.snapshot, &rs.targets] {
+            ks.extend(rk.keys.iter().copied());
+        }
+        after = Some(match ed.sign(&edit::key_sources(&ks)).await {
+            Err(e) => Err(format!("sign: {e}")),
+            Ok(signed) => signed.write(&meta2).await.map_err(|e| format!("write: {e}")),
+        });
         Ok(())
     });
     let should_accept = meets && new_version >= cur_version;
@@ -444,7 +480,50 @@ pub fn prop_with(case: &Case, known_url: bool, known_thr: bool) -> Outcome {
                 o.fail(format!("genuine metadata of the role holder (version {new_version} >= {cur_version}, signed by all its keys) was refused: {e}"));
             }
         }
-        (Ok(()), true) => o.label("cross-incorporated"),
+        (Ok(()), true) => {
+            o.label("cross-incorporated");
+            match after {
+                None => {}
+                Some(Err(e)) => {
+                    o.label("cross:owner-sign-refused");
+                    let _ = e;
+                }
+                Some(Ok(())) => {
+                    // the editor reported success: the client must load the result and see the
+                    // holder's role as the holder signed it, everything else as before
+                    o.label("cross:owner-signed");
+                    let mut m2 = m.clone();
+                    m2.snapshot = (m.snapshot.0 + 1, edit::expiry(80));
+                    m2.timestamp = (m.timestamp.0 + 1, edit::expiry(81));
+                    {
+                        let r = m2.roles.get_mut(&role).unwrap();
+                        r.version = Some(new_version);
+                        if matches!(kind, Incoming::Genuine | Incoming::Older) {
+                            r.expires = Some(edit::expiry(77));
+                        }
+                        if let Some((n, data)) = &holder_add {
+                            r.targets.insert(n.clone(), edit::MTarget { len: data.len() as u64, sha256: crate::cjson::sha256_hex(data), custom: false, content: data.clone() });
+                        }
+                    }
+                    crate::rt::set_now(crate::rt::t0());
+                    let root = std::fs::read(&b.root_path).unwrap();
+                    let l = tough::RepositoryLoader::new(&root, url::Url::from_directory_path(&meta2).unwrap(), url::Url::from_directory_path(&b.targets_dir).unwrap()).transport(tough::FilesystemTransport);
+                    match crate::rt::block_on(l.load()) {
+                        Err(e) => {
+                            o.fail(format!(
+                                "the owner incorporated the holder's metadata for {role} (version {new_version}, holder added {:?}), sign() and write() reported success, but the client refuses the written repository: {e}",
+                                holder_add.as_ref().map(|x| &x.0)
+                            ));
+                        }
+                        Ok(repo4) => {
+                            if let Some(d) = compare(&repo4, &m2) {
+                                o.fail(format!("after the cross-party update the loaded repository differs from what was put in: {d}"));
+                            }
+                        }
+                    }
+                }
+            }
+        }
         (Err(_), false) => o.label("cross-refused"),
     }
     o
@@ -473,7 +552,7 @@ pub fn check(ctx: &Ctx) -> Vec<PartReport> {
         ctx,
         PartSpec {
             name: "programs",
-            rule: "random editing programs of up to 25 operations against the real RepositoryEditor: add target (14-name vocabulary with spaces, non-ASCII, sub-directories, resolvable segments, URL metacharacters; sizes 0..32 KiB; custom data), remove, clear, set versions/expiries, delegate_role below the role being edited (1..3 keys of mixed algorithms, threshold 1..3, prefix/star/pattern/hash-prefix paths, depth <=3), switch the role being edited (sign_targets_editor with all or too few keys, change_delegated_targets); root roles with 1..3 keys and thresholds 1..2; final sign with all keys or without one role's keys; write; publish by copy or symlink; both snapshot modes; half of the cases continue with the cross-party flow (holder edits a delegated role from the loaded repository and signs; or a forged incoming file that is under-signed / signed by foreign keys / by one key twice / older; owner calls update_delegated_targets). Oracle: model of the accepted operations; sign Ok => loads, every role's targets, delegations (order, paths, thresholds, key ids), versions and expiries equal the model, snapshot/timestamp entries equal (version, length, SHA-256) of the files on disk, every published target reads back byte-identical; incoming metadata is incorporated iff it meets the threshold with distinct keys and does not lower the version. Non-trivial: >=1 delegated role, a threshold >=2, or a cross-party step; distinct = whole case",
+            rule: "random editing programs of up to 25 operations against the real RepositoryEditor: add target (14-name vocabulary with spaces, non-ASCII, sub-directories, resolvable segments, URL metacharacters; sizes 0..32 KiB; custom data), remove, clear, set versions/expiries, delegate_role below the role being edited (1..3 keys of mixed algorithms, threshold 1..3, prefix/star/pattern/hash-prefix paths, depth <=3), switch the role being edited (sign_targets_editor with all or too few keys, change_delegated_targets); root roles with 1..3 keys and thresholds 1..2; final sign with all keys or without one role's keys; write; publish by copy or symlink; both snapshot modes; half of the cases continue with the cross-party flow (holder edits a delegated role from the loaded repository and signs; or a forged incoming file that is under-signed / signed by foreign keys / by one key twice / older; owner calls update_delegated_targets; the holder may add a target below or outside the role's prefix; after an incorporation the owner bumps snapshot/timestamp, signs and writes, and if that reports success the client must load the result and see the holder's role as signed by the holder). Oracle: model of the accepted operations; sign Ok => loads, every role's targets, delegations (order, paths, thresholds, key ids), versions and expiries equal the model, snapshot/timestamp entries equal (version, length, SHA-256) of the files on disk, every published target reads back byte-identical; incoming metadata is incorporated iff it meets the threshold with distinct keys and does not lower the version. Non-trivial: >=1 delegated role, a threshold >=2, or a cross-party step; distinct = whole case",
             mode: Mode::Random { cases: n, strategy: Box::new(|| bx(case_strategy())) },
             prop: Box::new(move |c: &Case| prop_with(c, ku, kt)),
             require: vec![
@@ -486,6 +565,9 @@ pub fn check(ctx: &Ctx) -> Vec<PartReport> {
                 ("delegated-file-larger-than-targets-json", n as u64 / 50),
                 ("cross-incorporated", n as u64 / 50),
                 ("cross-refused", n as u64 / 50),
+                ("cross:owner-signed", n as u64 / 50),
+                ("cross:holder-adds-target", n as u64 / 100),
+                ("cross:owner-sign-refused", n as u64 / 500),
             ],
         },
     )]
